@@ -72,6 +72,22 @@ Proof. exact snell_law. Qed.
 Theorem snell_complex_reduces_to_real : forall n1 n2 t, 0 < n1 -> 0 < n2 -> 0 <= t <= 90 ->
   n1 * sin (t * PI / 180) <= n2 -> snell_complex_n2 n1 n2 0 t = snell n1 n2 t.
 Proof. exact snell_complex_real_limit. Qed.
+(* complex n2, every angle and every n2 with positive real part: with N = n2/n1 and w = N^2 - sin^2 t1, qr2 = (|w| + Re w)/2
+   is the squared real part of sqrt w (complex_sqrt_is_sqrt), and the real angle of refraction returned by snell satisfies
+   sin t2 * sqrt (sin^2 t1 + qr2) = sin t1, i.e. tan t2 = sin t1 / Re sqrt(N^2 - sin^2 t1): Snell's law n1 sin t1 = n2 sin t2c
+   for the complex angle t2c, read off for the real direction of propagation (Liou 5.4.1.3). *)
+Theorem snell_law_complex : forall n1 n2r n2i t, 0 < n1 -> 0 < n2r -> 0 <= t <= 90 ->
+  let s := sin (t * PI / 180) in
+  let wre := (n2r / n1) ^ 2 - (n2i / n1) ^ 2 - s * s in
+  let wim := 2 * (n2r / n1) * (n2i / n1) in
+  let qr2 := (sqrt (wre ^ 2 + wim ^ 2) + wre) / 2 in
+  0 < s * s + qr2 /\
+  sin (snell_complex_n2 n1 n2r n2i t * PI / 180) * sqrt (s * s + qr2) = s.
+Proof. exact snell_complex_liou. Qed.
+Theorem complex_sqrt_is_sqrt : forall wre wim, let W := sqrt (wre ^ 2 + wim ^ 2) in
+  0 <= (W + wre) / 2 /\ 0 <= (W - wre) / 2 /\ (W + wre) / 2 - (W - wre) / 2 = wre /\
+  4 * ((W + wre) / 2) * ((W - wre) / 2) = wim ^ 2.
+Proof. exact complex_sqrt_parts. Qed.
 Theorem snell_rejects_nonpositive_index : forall n1 n2 t, n1 <= 0 \/ n2 <= 0 -> snell_raises n1 n2 t.
 Proof. intros n1 n2 t H. unfold snell_raises. exact H. Qed.
 
@@ -105,6 +121,8 @@ Print Assumptions density_converters_inverse.
 Print Assumptions density_converters_map_planck.
 Print Assumptions snell_law_real.
 Print Assumptions snell_complex_reduces_to_real.
+Print Assumptions snell_law_complex.
+Print Assumptions complex_sqrt_is_sqrt.
 Print Assumptions snell_rejects_nonpositive_index.
 Print Assumptions fresnel_bounded_real.
 Print Assumptions fresnel_normal.
